@@ -157,13 +157,13 @@ crate::harnesses! {
     #[kani::unwind(10)]
     c05_dec_gamma_u16_be (quick, "BufBitReader<BE, MemWordReader<u16>>, K=8", "any Inv_r state, symbolic stream (every look-ahead pattern), first one within the plain decoder domain; table variant vs bit-by-bit variant") => table_decode_be::<u16, _, 8, {T_GAMMA}>;
     #[kani::unwind(10)]
-    c05_dec_gamma_u16_le (quick, "BufBitReader<LE, MemWordReader<u16>>, K=8", "any Inv_r state, symbolic stream (every look-ahead pattern), first one within the plain decoder domain; table variant vs bit-by-bit variant") => table_decode_le::<u16, _, 8, {T_GAMMA}>;
+    c05_dec_gamma_u16_le (thorough, "BufBitReader<LE, MemWordReader<u16>>, K=8", "any Inv_r state, symbolic stream (every look-ahead pattern), first one within the plain decoder domain; table variant vs bit-by-bit variant") => table_decode_le::<u16, _, 8, {T_GAMMA}>;
     #[kani::unwind(7)]
     c05_dec_gamma_u32_be (quick, "BufBitReader<BE, MemWordReader<u32>>, K=5", "any Inv_r state, symbolic stream (every look-ahead pattern), first one within the plain decoder domain; table variant vs bit-by-bit variant") => table_decode_be::<u32, _, 5, {T_GAMMA}>;
     #[kani::unwind(7)]
     c05_dec_gamma_u32_le (quick, "BufBitReader<LE, MemWordReader<u32>>, K=5", "any Inv_r state, symbolic stream (every look-ahead pattern), first one within the plain decoder domain; table variant vs bit-by-bit variant") => table_decode_le::<u32, _, 5, {T_GAMMA}>;
     #[kani::unwind(6)]
-    c05_dec_gamma_u64_be (quick, "BufBitReader<BE, MemWordReader<u64>>, K=4", "any Inv_r state, symbolic stream (every look-ahead pattern), first one within the plain decoder domain; table variant vs bit-by-bit variant") => table_decode_be::<u64, _, 4, {T_GAMMA}>;
+    c05_dec_gamma_u64_be (thorough, "BufBitReader<BE, MemWordReader<u64>>, K=4", "any Inv_r state, symbolic stream (every look-ahead pattern), first one within the plain decoder domain; table variant vs bit-by-bit variant") => table_decode_be::<u64, _, 4, {T_GAMMA}>;
     #[kani::unwind(6)]
     c05_dec_gamma_u64_le (quick, "BufBitReader<LE, MemWordReader<u64>>, K=4", "any Inv_r state, symbolic stream (every look-ahead pattern), first one within the plain decoder domain; table variant vs bit-by-bit variant") => table_decode_le::<u64, _, 4, {T_GAMMA}>;
     #[kani::unwind(6)]
@@ -171,7 +171,7 @@ crate::harnesses! {
     #[kani::unwind(6)]
     c05_dec_gamma_ub_le (quick, "BitReader<LE> (unbuffered), K=4", "any bit position, symbolic stream; table variant vs bit-by-bit variant") => ub_table_decode_le::<_, 4, {T_GAMMA}>;
     #[kani::unwind(10)]
-    c05_dec_delta_tt_u16_be (quick, "BufBitReader<BE, MemWordReader<u16>>, K=8", "any Inv_r state, symbolic stream (every look-ahead pattern), first one within the plain decoder domain; table variant vs bit-by-bit variant") => table_decode_be::<u16, _, 8, {T_DELTA_TT}>;
+    c05_dec_delta_tt_u16_be (thorough, "BufBitReader<BE, MemWordReader<u16>>, K=8", "any Inv_r state, symbolic stream (every look-ahead pattern), first one within the plain decoder domain; table variant vs bit-by-bit variant") => table_decode_be::<u16, _, 8, {T_DELTA_TT}>;
     #[kani::unwind(10)]
     c05_dec_delta_tt_u16_le (thorough, "BufBitReader<LE, MemWordReader<u16>>, K=8", "any Inv_r state, symbolic stream (every look-ahead pattern), first one within the plain decoder domain; table variant vs bit-by-bit variant") => table_decode_le::<u16, _, 8, {T_DELTA_TT}>;
     #[kani::unwind(7)]
@@ -183,15 +183,15 @@ crate::harnesses! {
     #[kani::unwind(6)]
     c05_dec_delta_tt_u64_le (thorough, "BufBitReader<LE, MemWordReader<u64>>, K=4", "any Inv_r state, symbolic stream (every look-ahead pattern), first one within the plain decoder domain; table variant vs bit-by-bit variant") => table_decode_le::<u64, _, 4, {T_DELTA_TT}>;
     #[kani::unwind(6)]
-    c05_dec_delta_tt_ub_be (quick, "BitReader<BE> (unbuffered), K=4", "any bit position, symbolic stream; table variant vs bit-by-bit variant") => ub_table_decode_be::<_, 4, {T_DELTA_TT}>;
+    c05_dec_delta_tt_ub_be (thorough, "BitReader<BE> (unbuffered), K=4", "any bit position, symbolic stream; table variant vs bit-by-bit variant") => ub_table_decode_be::<_, 4, {T_DELTA_TT}>;
     #[kani::unwind(6)]
-    c05_dec_delta_tt_ub_le (thorough, "BitReader<LE> (unbuffered), K=4", "any bit position, symbolic stream; table variant vs bit-by-bit variant") => ub_table_decode_le::<_, 4, {T_DELTA_TT}>;
+    c05_dec_delta_tt_ub_le (quick, "BitReader<LE> (unbuffered), K=4", "any bit position, symbolic stream; table variant vs bit-by-bit variant") => ub_table_decode_le::<_, 4, {T_DELTA_TT}>;
     #[kani::unwind(10)]
     c05_dec_delta_tf_u16_be (thorough, "BufBitReader<BE, MemWordReader<u16>>, K=8", "any Inv_r state, symbolic stream (every look-ahead pattern), first one within the plain decoder domain; table variant vs bit-by-bit variant") => table_decode_be::<u16, _, 8, {T_DELTA_TF}>;
     #[kani::unwind(10)]
     c05_dec_delta_tf_u16_le (thorough, "BufBitReader<LE, MemWordReader<u16>>, K=8", "any Inv_r state, symbolic stream (every look-ahead pattern), first one within the plain decoder domain; table variant vs bit-by-bit variant") => table_decode_le::<u16, _, 8, {T_DELTA_TF}>;
     #[kani::unwind(7)]
-    c05_dec_delta_tf_u32_be (quick, "BufBitReader<BE, MemWordReader<u32>>, K=5", "any Inv_r state, symbolic stream (every look-ahead pattern), first one within the plain decoder domain; table variant vs bit-by-bit variant") => table_decode_be::<u32, _, 5, {T_DELTA_TF}>;
+    c05_dec_delta_tf_u32_be (thorough, "BufBitReader<BE, MemWordReader<u32>>, K=5", "any Inv_r state, symbolic stream (every look-ahead pattern), first one within the plain decoder domain; table variant vs bit-by-bit variant") => table_decode_be::<u32, _, 5, {T_DELTA_TF}>;
     #[kani::unwind(7)]
     c05_dec_delta_tf_u32_le (quick, "BufBitReader<LE, MemWordReader<u32>>, K=5", "any Inv_r state, symbolic stream (every look-ahead pattern), first one within the plain decoder domain; table variant vs bit-by-bit variant") => table_decode_le::<u32, _, 5, {T_DELTA_TF}>;
     #[kani::unwind(6)]
@@ -209,7 +209,7 @@ crate::harnesses! {
     #[kani::unwind(7)]
     c05_dec_delta_ft_u32_be (quick, "BufBitReader<BE, MemWordReader<u32>>, K=5", "any Inv_r state, symbolic stream (every look-ahead pattern), first one within the plain decoder domain; table variant vs bit-by-bit variant") => table_decode_be::<u32, _, 5, {T_DELTA_FT}>;
     #[kani::unwind(7)]
-    c05_dec_delta_ft_u32_le (quick, "BufBitReader<LE, MemWordReader<u32>>, K=5", "any Inv_r state, symbolic stream (every look-ahead pattern), first one within the plain decoder domain; table variant vs bit-by-bit variant") => table_decode_le::<u32, _, 5, {T_DELTA_FT}>;
+    c05_dec_delta_ft_u32_le (thorough, "BufBitReader<LE, MemWordReader<u32>>, K=5", "any Inv_r state, symbolic stream (every look-ahead pattern), first one within the plain decoder domain; table variant vs bit-by-bit variant") => table_decode_le::<u32, _, 5, {T_DELTA_FT}>;
     #[kani::unwind(6)]
     c05_dec_delta_ft_u64_be (thorough, "BufBitReader<BE, MemWordReader<u64>>, K=4", "any Inv_r state, symbolic stream (every look-ahead pattern), first one within the plain decoder domain; table variant vs bit-by-bit variant") => table_decode_be::<u64, _, 4, {T_DELTA_FT}>;
     #[kani::unwind(6)]
@@ -221,9 +221,9 @@ crate::harnesses! {
     #[kani::unwind(10)]
     c05_dec_zeta3_u16_be (quick, "BufBitReader<BE, MemWordReader<u16>>, K=8", "any Inv_r state, symbolic stream (every look-ahead pattern), first one within the plain decoder domain; table variant vs bit-by-bit variant") => table_decode_be::<u16, _, 8, {T_ZETA3}>;
     #[kani::unwind(10)]
-    c05_dec_zeta3_u16_le (quick, "BufBitReader<LE, MemWordReader<u16>>, K=8", "any Inv_r state, symbolic stream (every look-ahead pattern), first one within the plain decoder domain; table variant vs bit-by-bit variant") => table_decode_le::<u16, _, 8, {T_ZETA3}>;
+    c05_dec_zeta3_u16_le (thorough, "BufBitReader<LE, MemWordReader<u16>>, K=8", "any Inv_r state, symbolic stream (every look-ahead pattern), first one within the plain decoder domain; table variant vs bit-by-bit variant") => table_decode_le::<u16, _, 8, {T_ZETA3}>;
     #[kani::unwind(7)]
-    c05_dec_zeta3_u32_be (quick, "BufBitReader<BE, MemWordReader<u32>>, K=5", "any Inv_r state, symbolic stream (every look-ahead pattern), first one within the plain decoder domain; table variant vs bit-by-bit variant") => table_decode_be::<u32, _, 5, {T_ZETA3}>;
+    c05_dec_zeta3_u32_be (thorough, "BufBitReader<BE, MemWordReader<u32>>, K=5", "any Inv_r state, symbolic stream (every look-ahead pattern), first one within the plain decoder domain; table variant vs bit-by-bit variant") => table_decode_be::<u32, _, 5, {T_ZETA3}>;
     #[kani::unwind(7)]
     c05_dec_zeta3_u32_le (quick, "BufBitReader<LE, MemWordReader<u32>>, K=5", "any Inv_r state, symbolic stream (every look-ahead pattern), first one within the plain decoder domain; table variant vs bit-by-bit variant") => table_decode_le::<u32, _, 5, {T_ZETA3}>;
     #[kani::unwind(6)]
@@ -233,7 +233,7 @@ crate::harnesses! {
     #[kani::unwind(6)]
     c05_dec_zeta3_ub_be (quick, "BitReader<BE> (unbuffered), K=4", "any bit position, symbolic stream; table variant vs bit-by-bit variant") => ub_table_decode_be::<_, 4, {T_ZETA3}>;
     #[kani::unwind(6)]
-    c05_dec_zeta3_ub_le (quick, "BitReader<LE> (unbuffered), K=4", "any bit position, symbolic stream; table variant vs bit-by-bit variant") => ub_table_decode_le::<_, 4, {T_ZETA3}>;
+    c05_dec_zeta3_ub_le (thorough, "BitReader<LE> (unbuffered), K=4", "any bit position, symbolic stream; table variant vs bit-by-bit variant") => ub_table_decode_le::<_, 4, {T_ZETA3}>;
     #[kani::unwind(7)]
     c05_defaults_r_u32_be (quick, "BufBitReader<BE, MemWordReader<u32>> parameterless read_gamma/read_delta/read_zeta3", "any Inv_r state, symbolic stream") => defaults_r_be::<u32, _, 5>;
     #[kani::unwind(7)]
@@ -241,21 +241,21 @@ crate::harnesses! {
     #[kani::unwind(4)]
     c05_defaults_w_gamma_be (quick, "BufBitWriter<BE, Rec<u64>> parameterless write of gamma", "any writer state, v<=2^64-2: same words/pending bits/length as the table-less variant") => defaults_w_be::<_, 0>;
     #[kani::unwind(4)]
-    c05_defaults_w_delta_be (quick, "BufBitWriter<BE, Rec<u64>> parameterless write of delta", "any writer state, v<=2^64-2: same words/pending bits/length as the table-less variant") => defaults_w_be::<_, 1>;
+    c05_defaults_w_delta_be (thorough, "BufBitWriter<BE, Rec<u64>> parameterless write of delta", "any writer state, v<=2^64-2: same words/pending bits/length as the table-less variant") => defaults_w_be::<_, 1>;
     #[kani::unwind(4)]
     c05_defaults_w_zeta3_be (quick, "BufBitWriter<BE, Rec<u64>> parameterless write of zeta3", "any writer state, v<=2^64-2: same words/pending bits/length as the table-less variant") => defaults_w_be::<_, 2>;
     #[kani::unwind(4)]
-    c05_defaults_w_zeta_k3_be (quick, "BufBitWriter<BE, Rec<u64>> parameterless write of zeta_k3", "any writer state, v<=2^64-2: same words/pending bits/length as the table-less variant") => defaults_w_be::<_, 3>;
+    c05_defaults_w_zeta_k3_be (thorough, "BufBitWriter<BE, Rec<u64>> parameterless write of zeta_k3", "any writer state, v<=2^64-2: same words/pending bits/length as the table-less variant") => defaults_w_be::<_, 3>;
     #[kani::unwind(7)]
     c05_defaults_r_u32_le (quick, "BufBitReader<LE, MemWordReader<u32>> parameterless read_gamma/read_delta/read_zeta3", "any Inv_r state, symbolic stream") => defaults_r_le::<u32, _, 5>;
     #[kani::unwind(7)]
     c05_defaults_r_u16_le (thorough, "BufBitReader<LE, MemWordReader<u16>> parameterless read_gamma/read_delta/read_zeta3", "any Inv_r state, symbolic stream") => defaults_r_le::<u16, _, 8>;
     #[kani::unwind(4)]
-    c05_defaults_w_gamma_le (quick, "BufBitWriter<LE, Rec<u64>> parameterless write of gamma", "any writer state, v<=2^64-2: same words/pending bits/length as the table-less variant") => defaults_w_le::<_, 0>;
+    c05_defaults_w_gamma_le (thorough, "BufBitWriter<LE, Rec<u64>> parameterless write of gamma", "any writer state, v<=2^64-2: same words/pending bits/length as the table-less variant") => defaults_w_le::<_, 0>;
     #[kani::unwind(4)]
     c05_defaults_w_delta_le (quick, "BufBitWriter<LE, Rec<u64>> parameterless write of delta", "any writer state, v<=2^64-2: same words/pending bits/length as the table-less variant") => defaults_w_le::<_, 1>;
     #[kani::unwind(4)]
-    c05_defaults_w_zeta3_le (quick, "BufBitWriter<LE, Rec<u64>> parameterless write of zeta3", "any writer state, v<=2^64-2: same words/pending bits/length as the table-less variant") => defaults_w_le::<_, 2>;
+    c05_defaults_w_zeta3_le (thorough, "BufBitWriter<LE, Rec<u64>> parameterless write of zeta3", "any writer state, v<=2^64-2: same words/pending bits/length as the table-less variant") => defaults_w_le::<_, 2>;
     #[kani::unwind(4)]
     c05_defaults_w_zeta_k3_le (quick, "BufBitWriter<LE, Rec<u64>> parameterless write of zeta_k3", "any writer state, v<=2^64-2: same words/pending bits/length as the table-less variant") => defaults_w_le::<_, 3>;
 }
